@@ -90,6 +90,9 @@ def positions(v, path=()):
             for i, (k, x) in enumerate(v["v"]):
                 yield (*path, "v", i, 0)
                 yield from positions(x, (*path, "v", i, 1))
+        elif tag == "obj":
+            for k, x in v["f"].items():
+                yield from positions(x, (*path, "f", k))
 
 
 def get_at(v, path):
